@@ -3,16 +3,25 @@ import os
 
 
 def run(ctx):
-    ctx.rule = ("TLC enumerates every value of the configured sets (records: 4 header triples x lengthSize 1..4 x SPS counts x PPS "
-                "counts x NAL size patterns; samples; all 128 NAL unit values x payload lengths; all 256 header bytes x 3 lengths) "
-                "and emits the value with its ISO layout; a case is distinct if its JSON differs")
+    ctx.rule = ("TLC enumerates every value of the configured families (records: header triples x lengthSize 1..4 x SPS counts x PPS "
+                "counts x cycled NAL size patterns; short SPS/PPS/sample lists with the size class of EVERY position chosen independently, "
+                "for every length size; NAL lists whose payloads carry 00 00 01 / 00 00 00 01 at the start, in the middle, at the end and "
+                "behind a zero header byte; the header matrix: all 256 values of each of profile / compatibility / level against classes "
+                "of the other two; all 128 NAL unit values x payload lengths; all 256 header bytes x 3 lengths) and emits the value with "
+                "its ISO layout; a case is distinct if its JSON differs")
     ctx.exhaustive = True
-    ctx.assumptions += ["payload bytes are a position-dependent pattern, not all byte strings",
-                        "profile_compatibility has no exported setter: API-built records are compared only when it is 0; other values go through unmarshal+marshal"]
+    ctx.assumptions += ["payload bytes are a position-dependent pattern, optionally with one Annex-B start code look-alike, not all byte strings",
+                        "profile_compatibility has no exported setter: API-built records are compared only when it is 0; other values "
+                        "are written by the specification and go through unmarshal (every exported field compared) + marshal",
+                        "the header matrix crosses the full range of one byte with classes of the other two, not all 2^24 triples"]
     ctx.sany("avc", "Avc")
-    ctx.tlc("avc", "MC_Avc", "MC_Avc.cfg", coverage=(ctx.tier == "thorough"))
-    ctx.tlc("avc", "MC_Avc", "MC_Avc_noreserved.cfg", expect_violation="ReservedOk", count_states=False)
+    heap = ["-Xmx3g"]
+    ctx.tlc("avc", "MC_Avc", "MC_Avc.cfg", coverage=(ctx.tier == "thorough"), jopts=heap)
+    # named deviations: on each of these configurations TLC must find the invariant violated (non-vacuity)
+    ctx.tlc("avc", "MC_Avc", "MC_Avc_noreserved.cfg", expect_violation="ReservedOk", count_states=False, jopts=heap)
+    ctx.tlc("avc", "MC_Avc", "MC_Avc_annexb.cfg", expect_violation="RoundTrip", count_states=False, jopts=heap)
+    ctx.tlc("avc", "MC_Avc", "MC_Avc_refine.cfg", expect_violation="RoundTrip", count_states=False, jopts=heap)
     cases = os.path.join(ctx.out, "cases.ndjson")
-    ctx.tlc("avc", "Gen_Avc", "Gen_Avc.%s.cfg" % ctx.tier, cases_to=cases, timeout=1500)
+    ctx.tlc("avc", "Gen_Avc", "Gen_Avc.%s.cfg" % ctx.tier, cases_to=cases, timeout=1500, jopts=heap)
     res = ctx.replay("avc", cases)
     ctx.judge("avc", cases, res)
